@@ -99,6 +99,8 @@ pub struct Obl {
     pub name: String,
     /// (label, lhs repr, rhs repr)
     pub eqs: Vec<(String, String, String)>,
+    /// extra assumptions that hold for this obligation group only: (lhs repr, op, rhs repr)
+    pub given: Vec<(String, String, String)>,
 }
 pub struct Out<T: HS> {
     pub obligations: Vec<Obl>,
@@ -114,7 +116,7 @@ impl<T: HS> Out<T> {
         Out { obligations: vec![], facts: vec![], assumes: vec![], notes: vec![], _p: Default::default() }
     }
     pub fn obl(&mut self, name: &str) -> &mut Obl {
-        self.obligations.push(Obl { name: name.to_string(), eqs: vec![] });
+        self.obligations.push(Obl { name: name.to_string(), eqs: vec![], given: vec![] });
         self.obligations.last_mut().unwrap()
     }
     pub fn eq(&mut self, name: &str, label: String, lhs: T, rhs: T) {
@@ -143,6 +145,13 @@ impl<T: HS> Out<T> {
             }
         }
     }
+    /// an assumption local to the obligation group `name` (which must be the group currently being filled)
+    pub fn given(&mut self, name: &str, lhs: T, op: &str, rhs: T) {
+        if self.obligations.last().map(|o| o.name != name).unwrap_or(true) {
+            self.obl(name);
+        }
+        self.obligations.last_mut().unwrap().given.push((lhs.repr(), op.to_string(), rhs.repr()));
+    }
     pub fn fact(&mut self, name: &str, holds: bool, detail: String) {
         self.facts.push((name.to_string(), holds, detail));
     }
@@ -162,6 +171,13 @@ impl<T: HS> Out<T> {
                     o.push(',');
                 }
                 o.push_str(&format!("[{},{},{}]", json_str(l), a, b));
+            }
+            o.push_str("],\"given\":[");
+            for (k, (a, op, b)) in ob.given.iter().enumerate() {
+                if k > 0 {
+                    o.push(',');
+                }
+                o.push_str(&format!("[{},{},{}]", a, json_str(op), b));
             }
             o.push_str("]}");
         }
